@@ -66,6 +66,15 @@ SB_OP(alloc)
                 Track tr;
                 rc = sb_buffer_init(&buf, tokul(a));
                 has_buf = rc == 0;
+            } else if (s == 'v') {
+                // a view over caller memory: the library must never grow, shrink or free it
+                if (has_buf) { answer(-2); continue; }
+                ExactBuf* view = new ExactBuf(std::vector<uint8_t>(tokul(a), 0));
+                views.push_back(view);
+                Track tr;
+                sb_buffer_init_view(&buf, view->p, view->n);
+                rc = 0;
+                has_buf = true;
             } else if (!has_buf) {
                 rc = -1;
             } else if (s == 'a') {
